@@ -131,7 +131,7 @@ def configs(tier: str):
 def run(tier: str, seed: int) -> Result:
     silence_labtech()
     cfgs = rotate(configs(tier), seed)
-    cap = 4000 if tier == 'quick' else 40000
+    cap = 12000 if tier == "quick" else 60000
     work = [(c, cap, None) for c in cfgs]
     viols = []
     ex = states = trans = capped = multi = 0
